@@ -115,3 +115,138 @@ def _replay(model, contract):
 
 for _c in CONTRACTS.values():
     _c["replay_hook"] = _replay
+
+
+# ---- ProgramSet.remove_program (property C16: an object behaves as its visible data after library operations): the cache of every
+# affected Covout must follow its programs, otherwise the next simulation reads outcomes of a program that no longer exists
+def _env_remove(n):
+    def make(it):
+        from pyvc.interp import PyObjV
+        from pyvc.core import LArr
+        from pyvc import source
+
+        pm = source.load("programs")
+        names = ["p%d" % i for i in range(n)]
+        outs = {nm: z3.Real("out_%s" % nm) for nm in names}
+        baseline = z3.Real("baseline")
+        combos = [bin(x)[2:].rjust(n, "0") for x in range(2 ** n)]
+        cv = PyObjV("Covout", pm, {
+            "par": "par", "pop": "pop", "baseline": baseline, "progs": dict(outs), "_interactions": {}, "imp_interaction": None, "cov_interaction": "additive", "sigma": None,
+            # a cache that is consistent with the n programs (contents arbitrary, shape as update_outcomes leaves it)
+            "_cached_progs": dict(outs), "_deltas": LArr(n, it._list_reader([z3.Real("d_%d" % i) for i in range(n)])),
+            "combinations": np.array([list(int(y) for y in x) for x in combos]), "_combination_outcomes": LArr(2 ** n, it._list_reader([z3.Real("co_%d" % i) for i in range(2 ** n)])),
+        })
+        progset = PyObjV("ProgramSet", pm, {"programs": {nm: None for nm in names}, "pars": ["par"], "pops": ["pop"], "covouts": {("par", "pop"): cv}})
+        return {"self": progset, "cv": cv, "names": names, "name": "p0"}
+
+    return make
+
+
+for _n in (2, 3):
+    CONTRACTS["programs:ProgramSet.remove_program#n%d" % _n] = dict(
+        schema=schema, make_env=_env_remove(_n), ghost_params={"CODE": "const:'p0'"}, stubs={"self._get_code_name(name)": "CODE"},
+        ensures=[
+            ("C16.program_is_gone_from_the_program_set_and_its_outcomes", "'p0' not in self.programs and 'p0' not in cv.progs"),
+            ("C16.covout_cache_follows_its_remaining_programs", "sorted(cv._cached_progs.keys()) == sorted(cv.progs.keys())"),
+            ("C16.covout_cache_has_the_shape_of_its_remaining_programs", "len(cv._deltas) == len(cv.progs) and len(cv._combination_outcomes) == 2 ** len(cv.progs) and len(cv.combinations) == 2 ** len(cv.progs)"),
+        ],
+        defined_props=["C16"], n=_n, explicit=False)
+
+
+def _replay_remove(model, contract):
+    """replay on a REAL ProgramSet shell holding a real Covout (built by its constructor): remove_program('p0') runs, then the real
+    Covout.get_outcome is asked for an outcome with coverages of the remaining programs -- what the next simulation step does"""
+    import atomica.programs as ap
+    import sciris as sc
+
+    n = contract["n"]
+
+    def val(name):
+        v = model.eval(z3.Real(name), model_completion=True)
+        try:
+            return float(v.numerator_as_long()) / float(v.denominator_as_long())
+        except Exception:
+            v = v.approx(12)
+            return float(v.numerator_as_long()) / float(v.denominator_as_long())
+
+    names = ["p%d" % i for i in range(n)]
+    outs = [val("out_%s" % nm) for nm in names]
+    baseline = val("baseline")
+    cv = ap.Covout(par="par", pop="pop", progs={nm: o for nm, o in zip(names, outs)}, baseline=baseline)
+    ps = object.__new__(ap.ProgramSet)
+    ps.programs = sc.odict((nm, None) for nm in names)
+    ps.pars, ps.pops, ps.comps = sc.odict([("par", {"label": "par"})]), sc.odict([("pop", {"label": "pop"})]), sc.odict()
+    ps.covouts = sc.odict([(("par", "pop"), cv)])
+    pre = dict(n=n, programs=names, outcomes=outs, baseline=baseline, removed="p0")
+    try:
+        ps.remove_program("p0")
+    except Exception as e:
+        return dict(verdict="violates", detail="real remove_program raised %s: %s" % (type(e).__name__, e), prestate=pre)
+    bad = []
+    if sorted(cv._cached_progs.keys()) != sorted(cv.progs.keys()):
+        bad.append("cache still lists %r, programs are %r" % (list(cv._cached_progs.keys()), list(cv.progs.keys())))
+    if len(cv._deltas) != len(cv.progs) or len(cv._combination_outcomes) != 2 ** len(cv.progs):
+        bad.append("cache has %d deltas / %d combination outcomes for %d programs" % (len(cv._deltas), len(cv._combination_outcomes), len(cv.progs)))
+    try:
+        out = cv.get_outcome({nm: np.array([0.5]) for nm in cv.progs.keys()})
+        pre["outcome_after"] = [float(x) for x in np.atleast_1d(out)]
+    except Exception as e:
+        bad.append("get_outcome with the remaining programs raised %s: %s" % (type(e).__name__, str(e)[:120]))
+    return dict(verdict="violates" if bad else "holds", detail="; ".join(bad) or "cache follows the remaining programs and get_outcome works", prestate=pre)
+
+
+for _k, _c in CONTRACTS.items():
+    if "remove_program" in _k:
+        _c["replay_hook"] = _replay_remove
+
+
+# ---- ProgramSet.remove_pop (C16): the outcome objects of the removed population must go with it (they are keyed by (parameter, population))
+def _env_remove_pop(it):
+    from pyvc.interp import PyObjV
+    from pyvc.core import Opaque
+    from pyvc import source
+
+    pm = source.load("programs")
+    prog = PyObjV("Program", pm, {"name": "prog", "target_pops": ["pop", "other"]})
+    progset = PyObjV("ProgramSet", pm, {"programs": {"prog": prog}, "pars": {"par": None}, "pops": {"pop": None, "other": None},
+                                         "covouts": {("par", "pop"): Opaque("covout of the removed population"), ("par", "other"): Opaque("covout of another population")}})
+    return {"self": progset, "prog": prog, "name": "pop"}
+
+
+CONTRACTS["programs:ProgramSet.remove_pop#one_parameter_two_populations"] = dict(
+    schema=schema, make_env=_env_remove_pop, ghost_params={"CODE": "const:'pop'"}, stubs={"self._get_code_name(name)": "CODE"},
+    ensures=[
+        ("C16.population_is_gone_from_the_program_set_and_the_targets", "'pop' not in self.pops and 'pop' not in prog.target_pops"),
+        ("C16.no_outcome_is_left_for_the_removed_population", "all(k[1] != 'pop' for k in self.covouts.keys())"),
+        ("C16.outcomes_of_other_populations_are_kept", "('par', 'other') in self.covouts and 'other' in self.pops and 'other' in prog.target_pops"),
+    ],
+    defined_props=["C16"])
+
+
+def _replay_remove_pop(model, contract):
+    """replay on a REAL ProgramSet shell with a real Program-like target list and two real Covouts"""
+    import atomica.programs as ap
+    import sciris as sc
+
+    class _Prog:
+        name = "prog"
+
+        def __init__(self):
+            self.target_pops = ["pop", "other"]
+
+    ps = object.__new__(ap.ProgramSet)
+    ps.programs = sc.odict([("prog", _Prog())])
+    ps.pars, ps.comps = sc.odict([("par", {"label": "par"})]), sc.odict()
+    ps.pops = sc.odict([("pop", {"label": "pop"}), ("other", {"label": "other"})])
+    ps.covouts = sc.odict([(("par", "pop"), ap.Covout("par", "pop", {"prog": 0.5}, baseline=0.1)), (("par", "other"), ap.Covout("par", "other", {"prog": 0.5}, baseline=0.1))])
+    pre = dict(pops=["pop", "other"], covouts=[["par", "pop"], ["par", "other"]], removed="pop")
+    try:
+        ps.remove_pop("pop")
+    except Exception as e:
+        return dict(verdict="violates", detail="real remove_pop raised %s: %s" % (type(e).__name__, e), prestate=pre)
+    left = [list(k) for k in ps.covouts.keys()]
+    bad = [k for k in left if k[1] == "pop"]
+    return dict(verdict="violates" if bad else "holds", detail="covouts after remove_pop('pop'): %r (populations left: %r)" % (left, list(ps.pops.keys())), prestate=pre)
+
+
+CONTRACTS["programs:ProgramSet.remove_pop#one_parameter_two_populations"]["replay_hook"] = _replay_remove_pop
